@@ -384,6 +384,10 @@ def _gen_vhdx_meta(tier):
             for blocks, cut in ((1, 0), (3, sec), (5, bs // 2)):
                 for idb in (bytes(range(16)), b"\xff" * 16, b"\x00" * 15 + b"\x01"):
                     yield {"bs": bs, "sec": sec, "blocks": blocks, "cut": cut, "id": idb.hex()}
+    # a metadata region of 2 and 3 MiB whose items are stored behind its first MiB / in its last 64 KiB
+    for mlen, at in ((2, MB + 4096), (2, 2 * MB - 65536), (3, 2 * MB + 512 * 3)):
+        for sec in (512, 4096):
+            yield {"bs": MB, "sec": sec, "blocks": 3, "cut": sec, "id": bytes(range(16)).hex(), "meta_len_mb": mlen, "items_at": at}
 
 
 def _case_vhdx_meta(case, ctx):
@@ -394,7 +398,10 @@ def _case_vhdx_meta(case, ctx):
     bs, sec = case["bs"], case["sec"]
     size = case["blocks"] * bs - case["cut"]
     idb = bytes.fromhex(case["id"])
-    img = B.build([0] * case["blocks"], [None] * case["blocks"], bs, sec, size, disk_id=idb)
+    kw = {}
+    if case.get("meta_len_mb"):
+        kw = dict(meta_len_mb=case["meta_len_mb"], items_at=case["items_at"], bat_mb=2 + case["meta_len_mb"])
+    img = B.build([0] * case["blocks"], [None] * case["blocks"], bs, sec, size, disk_id=idb, **kw)
     v = VHDX(img.sparse(log=False))
     ctx.nontrivial += 1
     d = []
